@@ -104,6 +104,14 @@ func c20txs() []authTypes.StdTx {
 			txs = append(txs, authTypes.NewStdTx(m.val.(sdk.Msg), fee, ss, memo, ent))
 		}
 	}
+	// the same transaction with memos that differ only in surrounding white space or case, and in
+	// how a fee is written: different content, so different sign bytes
+	if ms := c20msgs(); len(ms) > 0 {
+		ss := authTypes.StdSignature{Signature: bytes.Repeat([]byte{7}, 64), PublicKey: chain.Pub(2)}
+		for _, memo := range []string{"thanks", "thanks ", " thanks", "thanks\n", "\tthanks", "Thanks", "thanks  "} {
+			txs = append(txs, authTypes.NewStdTx(ms[0].val.(sdk.Msg), fees[1], ss, memo, 42))
+		}
+	}
 	return txs
 }
 
@@ -309,6 +317,11 @@ func (c *c20) signBytes() {
 		if err != nil {
 			c.fail("C20|signbytes|error", fmt.Sprintf("tx %d: %v", i, err), nil)
 			continue
+		}
+		// the bytes the ante handler verifies a signature against are those bytes
+		c.count("sign bytes: verifier side", 1)
+		if vb, verr := auth.GetSignBytes(chain.ChainID, tx); verr != nil || !bytes.Equal(vb, sb) {
+			c.fail("C20|signbytes|verifier-side-differs", fmt.Sprintf("tx %d (memo %q): auth.GetSignBytes gives %s (err %v), StdSignBytes of the same fields %s", i, tx.Memo, vb, verr, sb), nil)
 		}
 		mj, _ := cdc.MarshalJSON(tx.Msg)
 		id := fmt.Sprintf("%s|%d|%s|%s|%s", chain.ChainID, tx.Entropy, tx.Fee.String(), tx.Memo, mj)
